@@ -413,7 +413,14 @@ func (g *G) LetBad(name string) []Tok {
 
 // QueryBad returns a statement that fails at lex, parse or compile level.
 func (g *G) QueryBad() []Tok {
-	switch g.R.Intn(19) {
+	switch g.R.Intn(22) {
+	case 19:
+		// a mistyped operator name (anything that ranks known names by closeness meets ties here)
+		return toks(g.pick(Tables), "|", g.NearMiss(g.pick(operatorWords)), "a")
+	case 20:
+		return toks(g.pick(Tables), "|", "join", "kind", "=", g.NearMiss(g.pick([]string{"inner", "innerunique", "leftouter"})), "(", "U", ")", "on", "k")
+	case 21:
+		return toks(g.pick(Tables), "|", "where", g.NearMiss(g.pick([]string{"tolower", "toupper", "strcat", "isnull", "isnotnull", "countif", "iff", "iif", "not", "now"})), "(", "a", ")", "==", "1", "|", "sort", "by", "a", g.NearMiss(g.pick([]string{"asc", "desc", "nulls"})))
 	case 0:
 		return toks("!")
 	case 1:
@@ -457,6 +464,35 @@ func (g *G) QueryBad() []Tok {
 	default:
 		return toks(g.pick(Tables), "|", "where", "a", "==", "!//c", "and", "b")
 	}
+}
+
+var operatorWords = []string{"count", "where", "filter", "sort", "order", "take", "limit", "top", "project", "extend", "summarize", "join", "as", "render"}
+
+// NearMiss returns word with one or two small edits (a plausible typo): a letter dropped, doubled,
+// replaced or swapped with its neighbour, or the word cut short.
+func (g *G) NearMiss(word string) string {
+	b := []byte(word)
+	for n := 1 + g.R.Intn(2); n > 0 && len(b) > 1; n-- {
+		i := g.R.Intn(len(b))
+		switch g.R.Intn(5) {
+		case 0:
+			b = append(b[:i:i], b[i+1:]...)
+		case 1:
+			b = append(b[:i+1:i+1], b[i:]...)
+		case 2:
+			b[i] = byte('a' + g.R.Intn(26))
+		case 3:
+			if i+1 < len(b) {
+				b[i], b[i+1] = b[i+1], b[i]
+			}
+		default:
+			b = b[:1+g.R.Intn(len(b)-1)]
+		}
+	}
+	if string(b) == word {
+		return word + "x"
+	}
+	return string(b)
 }
 
 // Layout controls how gaps are rendered.
